@@ -70,7 +70,18 @@ def r_vrh(ctx, model):
 
 
 def r_compliances(ctx, model):
+    # the components as the static table lists them: in the canonical order, and in two other column orders (a shear component between the
+    # longitudinal ones; shear components first) - position in the 6x6 matrix must follow the Voigt index, not the order of appearance
+    orders = {"": list(KEYS21),
+              " (columns c11 c22 c55 c33 ...)": ["c11", "c22", "c55", "c33"] + [k for k in KEYS21 if k not in ("c11", "c22", "c55", "c33")],
+              " (shear columns first)": [k for k in KEYS21 if int(k[1]) > 3] + [k for k in KEYS21 if int(k[1]) <= 3]}
+    for suffix, order in orders.items():
+        _r_compliances_one(ctx, model, suffix, order)
+
+
+def _r_compliances_one(ctx, model, suffix, order):
     ev, calc, vol = setup(ctx, model)
+    tensor_seeds(calc, order)
     del calc.attrs["_compliances"]
     calc.attrs["config"] = DictV({"elast": DictV({"settings": DictV({"symmetry": DictV({})})})})
     ref = f"{CALC}._calculate_compliances"
@@ -87,14 +98,14 @@ def r_compliances(ctx, model):
             want = sp.Symbol("CAD_" + voigt_canon(f"{i + 1}{j + 1}"), real=True)
             if not is_zero(m.get((i, j)) - want):
                 bad.append(f"[{i},{j}]={m.get((i, j))} (want {want})")
-    ctx.check(not bad and tuple(m.shape) == (6, 6), "inverted matrix = symmetric assembly of modulus_adiabatic", w,
+    ctx.check(not bad and tuple(m.shape) == (6, 6), "inverted matrix = symmetric assembly of modulus_adiabatic" + suffix, w,
               expected="M[i-1,j-1] = M[j-1,i-1] = modulus_adiabatic[c_ij] for all 21 keys", found="; ".join(bad[:6]) or "as required",
-              explanation="the 6x6 stiffness that is inverted is not the full symmetric adiabatic tensor", key="compliances.assembly")
+              explanation="the 6x6 stiffness that is inverted is not the full symmetric adiabatic tensor", key="compliances.assembly" + suffix)
     cut = getattr(inv[0], "truncated", None)
-    ctx.check(cut is None, "the compliance tensor is the inverse itself, for every conditioning of the stiffness", w, expected="numpy.linalg.inv (or a pseudo-inverse with the default cut-off)",
+    ctx.check(cut is None, "the compliance tensor is the inverse itself, for every conditioning of the stiffness" + suffix, w, expected="numpy.linalg.inv (or a pseudo-inverse with the default cut-off)",
               found=f"pseudo-inverse with cut-off {cut}" if cut is not None else "an inverse",
               explanation=f"the stiffness is inverted by a pseudo-inverse that drops every eigenvalue below {cut} x the largest one: for a tensor with a soft mode "
-                          f"(near an elastic instability) the compliances are not the inverse, and the Reuss and Hill averages are wrong", key="compliances.truncated")
+                          f"(near an elastic instability) the compliances are not the inverse, and the Reuss and Hill averages are wrong", key="compliances.truncated" + suffix)
     comp = calc.attrs.get("_compliances")
     if not isinstance(comp, DictV):
         raise AnalysisError("_calculate_compliances does not bind self._compliances to a dict")
@@ -104,9 +115,9 @@ def r_compliances(ctx, model):
         got = comp.d.get(KeyObj(k))
         if got is None or not is_zero(as_sym(got) - inv[0].get((i, j))):
             bad.append(f"{k} -> {got}")
-    ctx.check(not bad and len(comp.d) == 21, "compliances stored under canonical keys", w,
+    ctx.check(not bad and len(comp.d) == 21, "compliances stored under canonical keys" + suffix, w,
               expected="_compliances[c_(i+1,j+1)] = inv(M)[.., i, j] for i <= j", found="; ".join(bad[:6]) or "21 keys as required",
-              explanation="a compliance component is stored under the wrong key or not at all", key="compliances.store")
+              explanation="a compliance component is stored under the wrong key or not at all", key="compliances.store" + suffix)
 
 
 def r_compliances_systems(ctx, model):
